@@ -55,6 +55,19 @@ def errCompressor : Int := - (Sqfs.Consts.errCompressor : Int)
 /-- result of a loop: `none` = still running when the fuel ran out; `error e` = returned `e < 0`. -/
 abbrev Outcome (α : Type) := Option (Except Int α)
 
+/-- one round of a loop: leave with a result, or go round again with a new loop state -/
+inductive LoopStep (α β : Type) where
+  | done (r : β)
+  | next (a : α)
+
+/-- a C loop with explicit fuel: `body` is one round; `none` = still going round when the fuel ran out -/
+def iter {α β : Type} (body : α → LoopStep α β) : Nat → α → Option β
+  | 0, _ => none
+  | fuel + 1, a =>
+    match body a with
+    | LoopStep.done r => some r
+    | LoopStep.next a' => iter body fuel a'
+
 /-! ## `ostream_xfrm_t` -/
 
 structure OState (σ : Type) where
@@ -67,22 +80,23 @@ structure OState (σ : Type) where
   flushed : Nat := 0
 
 /--
-`flush_inbuf`'s loop `while (finish || off_in < avail_in)`; `rest` is `inbuf[off_in .. avail_in)`.
+One round of `flush_inbuf`'s loop `while (finish || off_in < avail_in)`; `rest` is `inbuf[off_in .. avail_in)`.
 `off_out` is 0 at every call (it is reset after every `wrapped->append`), so the room is always `BUFSZ`.
 -/
-def flushLoop {σ : Type} (C : Codec σ) (bufsz : Nat) (finish : Bool) :
-    Nat → σ → Bytes → Bytes → Outcome (σ × Bytes × Bytes)
-  | 0, _, _, _ => none
-  | fuel + 1, cs, rest, sink =>
+def flushBody {σ : Type} (C : Codec σ) (bufsz : Nat) (finish : Bool) :
+    σ × Bytes × Bytes → LoopStep (σ × Bytes × Bytes) (Except Int (σ × Bytes × Bytes))
+  | (cs, rest, sink) =>
     if finish || decide (0 < rest.length) then
       let r := C.step cs rest bufsz (if finish then Flush.full else Flush.none)
-      if r.res = Res.error then some (.error errCompressor)          -- return SQFS_ERROR_COMPRESSOR
-      else
-        let sink' := sink ++ r.out                                    -- wrapped->append(outbuf, off_out)
-        let rest' := rest.drop r.consumed
-        if r.res = Res.streamEnd then some (.ok (r.st, rest', sink')) -- break
-        else flushLoop C bufsz finish fuel r.st rest' sink'
-    else some (.ok (cs, rest, sink))
+      if r.res = Res.error then LoopStep.done (.error errCompressor)          -- return SQFS_ERROR_COMPRESSOR
+      else if r.res = Res.streamEnd then
+        LoopStep.done (.ok (r.st, rest.drop r.consumed, sink ++ r.out))         -- wrapped->append(outbuf, off_out); break
+      else LoopStep.next (r.st, rest.drop r.consumed, sink ++ r.out)
+    else LoopStep.done (.ok (cs, rest, sink))
+
+def flushLoop {σ : Type} (C : Codec σ) (bufsz : Nat) (finish : Bool) (fuel : Nat) (cs : σ) (rest sink : Bytes) :
+    Outcome (σ × Bytes × Bytes) :=
+  iter (flushBody C bufsz finish) fuel (cs, rest, sink)
 
 /-- `flush_inbuf(xfrm, finish)`; afterwards `inbuf` holds the unconsumed tail (the `memmove`) -/
 def flushInbuf {σ : Type} (C : Codec σ) (bufsz fuel : Nat) (st : OState σ) (finish : Bool) : Outcome (OState σ) :=
@@ -91,18 +105,23 @@ def flushInbuf {σ : Type} (C : Codec σ) (bufsz fuel : Nat) (st : OState σ) (f
   | some (.error e) => some (.error e)
   | some (.ok (cs, rest, sink)) => some (.ok { st with cs := cs, inbuf := rest, sink := sink })
 
-/-- `xfrm_append`'s loop `while (size > 0)`; `data` is what is still to be copied (zeros for `data == NULL`) -/
-def appendLoop {σ : Type} (C : Codec σ) (bufsz fuel : Nat) : Nat → OState σ → Bytes → Outcome (OState σ)
-  | 0, _, _ => none
-  | k + 1, st, data =>
-    if data.length = 0 then some (.ok st)
+/-- one round of `xfrm_append`'s loop `while (size > 0)`; `data` is what is still to be copied -/
+def appendBody {σ : Type} (C : Codec σ) (bufsz fuel : Nat) :
+    OState σ × Bytes → LoopStep (OState σ × Bytes) (Outcome (OState σ))
+  | (st, data) =>
+    if data.length = 0 then LoopStep.done (some (.ok st))
     else
       match (if bufsz ≤ st.inbuf.length then flushInbuf C bufsz fuel st false else some (.ok st)) with
-      | none => none
-      | some (.error e) => some (.error e)
+      | none => LoopStep.done none
+      | some (.error e) => LoopStep.done (some (.error e))
       | some (.ok st1) =>
         let diff := min (bufsz - st1.inbuf.length) data.length
-        appendLoop C bufsz fuel k { st1 with inbuf := st1.inbuf ++ data.take diff } (data.drop diff)
+        LoopStep.next ({ st1 with inbuf := st1.inbuf ++ data.take diff }, data.drop diff)
+
+def appendLoop {σ : Type} (C : Codec σ) (bufsz fuel : Nat) (k : Nat) (st : OState σ) (data : Bytes) : Outcome (OState σ) :=
+  match iter (appendBody C bufsz fuel) k (st, data) with
+  | none => none
+  | some r => r
 
 /-- the bytes an `append(data, size)` call stands for: `data == NULL` means `size` zero bytes -/
 def appendBytes (data : Option Bytes) (size : Nat) : Bytes :=
@@ -171,20 +190,25 @@ structure IState (σ : Type) where
   off : Nat
   inner : Inner
 
-/-- the `for (;;)` loop of `precache` (after the buffer has been compacted) -/
-def precacheLoop {σ : Type} (C : Codec σ) (bufsz : Nat) : Nat → σ → Bytes → Inner → Outcome (σ × Bytes × Inner)
-  | 0, _, _, _ => none
-  | fuel + 1, cs, buf, inner =>
-    let (chunk, eof, inner1) := inner.peek                           -- wrapped->get_buffered_data(.., BUFSZ)
+/-- one round of the `for (;;)` loop of `precache` (after the buffer has been compacted) -/
+def precacheBody {σ : Type} (C : Codec σ) (bufsz : Nat) :
+    σ × Bytes × Inner → LoopStep (σ × Bytes × Inner) (Except Int (σ × Bytes × Inner))
+  | (cs, buf, inner) =>
+    let chunk := inner.peek.1                                            -- wrapped->get_buffered_data(.., BUFSZ)
+    let eof := inner.peek.2.1
     let mode := if eof then Flush.full else Flush.none
     let r := C.step cs chunk (bufsz - buf.length) mode
-    if r.res = Res.error then some (.error errCompressor)
+    if r.res = Res.error then LoopStep.done (.error errCompressor)
     else
-      let buf' := buf ++ r.out                                        -- buffer_used = out_off
-      let inner2 := inner1.advance r.consumed                         -- wrapped->advance_buffer(in_off)
-      if r.res = Res.bufferFull || decide (bufsz ≤ buf'.length) then some (.ok (r.st, buf', inner2))
-      else if mode = Flush.full then some (.ok (r.st, buf', inner2))
-      else precacheLoop C bufsz fuel r.st buf' inner2
+      let buf' := buf ++ r.out                                           -- buffer_used = out_off
+      let inner2 := inner.peek.2.2.advance r.consumed                    -- wrapped->advance_buffer(in_off)
+      if r.res = Res.bufferFull || decide (bufsz ≤ buf'.length) then LoopStep.done (.ok (r.st, buf', inner2))
+      else if eof then LoopStep.done (.ok (r.st, buf', inner2))
+      else LoopStep.next (r.st, buf', inner2)
+
+def precacheLoop {σ : Type} (C : Codec σ) (bufsz : Nat) (fuel : Nat) (cs : σ) (buf : Bytes) (inner : Inner) :
+    Outcome (σ × Bytes × Inner) :=
+  iter (precacheBody C bufsz) fuel (cs, buf, inner)
 
 /-- `precache`: drop the used part (`memmove`), then fill -/
 def precache {σ : Type} (C : Codec σ) (bufsz fuel : Nat) (st : IState σ) : Outcome (IState σ) :=
@@ -269,33 +293,37 @@ def isLibError (b : Backend) (r : LibRet) : Bool :=
   | _, LibRet.streamError => true
   | _, _ => false
 
+/-- loop state of `process_data`: library state, input left, room left, `*in_read`, `*out_written` -/
+abbrev WrapSt (τ : Type) := τ × Bytes × Nat × Nat × Bytes
+
 /--
-The common loop of `gzip.c`, `xz.c`, `bzip2.c` (`process_data`), **with the patch**:
+One round of the common loop of `gzip.c`, `xz.c`, `bzip2.c` (`process_data`), **with the patch**:
 `while ((in_size > 0 || flush_mode == XFRM_STREAM_FLUSH_FULL) && out_size > 0)`.
-`ai`/`ao` accumulate `*in_read`/`*out_written`.
 -/
-def wrapLoop {τ : Type} (L : Lib τ) (b : Backend) (compress : Bool) (fl : Flush) :
-    Nat → τ → Bytes → Nat → Nat → Bytes → Option (StepOut τ)
-  | 0, _, _, _, _, _ => none
-  | fuel + 1, st, inp, room, ai, ao =>
+def wrapBody {τ : Type} (L : Lib τ) (b : Backend) (compress : Bool) (fl : Flush) :
+    WrapSt τ → LoopStep (WrapSt τ) (StepOut τ)
+  | (st, inp, room, ai, ao) =>
     if (decide (0 < inp.length) || decide (fl = Flush.full)) && decide (0 < room) then
       let r := L.call st inp room fl
       -- bzip2.c: `if (ret == BZ_OUTBUFF_FULL) return XFRM_STREAM_BUFFER_FULL;` comes before the accounting
-      if b = Backend.bzip2 ∧ r.ret = LibRet.bufError then some ⟨r.st, ai, ao, Res.bufferFull⟩
-      else if isLibError b r.ret then some ⟨r.st, ai, ao, Res.error⟩
+      if b = Backend.bzip2 ∧ r.ret = LibRet.bufError then LoopStep.done ⟨r.st, ai, ao, Res.bufferFull⟩
+      else if isLibError b r.ret then LoopStep.done ⟨r.st, ai, ao, Res.error⟩
       else
         let inp' := inp.drop r.consumed
-        let room' := room - r.out.length
         let ai' := ai + r.consumed
         let ao' := ao ++ r.out
-        if r.ret = LibRet.streamEnd then some ⟨L.reset r.st, ai', ao', Res.streamEnd⟩
+        if r.ret = LibRet.streamEnd then LoopStep.done ⟨L.reset r.st, ai', ao', Res.streamEnd⟩
         -- "no more input will follow and nothing is left to unpack"
         else if !compress && decide (inp'.length = 0) && decide (r.out.length = 0) && decide (fl = Flush.full) then
-          if 0 < L.totalIn r.st then some ⟨r.st, ai', ao', Res.error⟩
-          else some ⟨r.st, ai', ao', Res.streamEnd⟩
-        else if r.ret = LibRet.bufError then some ⟨r.st, ai', ao', Res.bufferFull⟩
-        else wrapLoop L b compress fl fuel r.st inp' room' ai' ao'
-    else some ⟨st, ai, ao, Res.ok⟩
+          if 0 < L.totalIn r.st then LoopStep.done ⟨r.st, ai', ao', Res.error⟩
+          else LoopStep.done ⟨r.st, ai', ao', Res.streamEnd⟩
+        else if r.ret = LibRet.bufError then LoopStep.done ⟨r.st, ai', ao', Res.bufferFull⟩
+        else LoopStep.next (r.st, inp', room - r.out.length, ai', ao')
+    else LoopStep.done ⟨st, ai, ao, Res.ok⟩
+
+def wrapLoop {τ : Type} (L : Lib τ) (b : Backend) (compress : Bool) (fl : Flush) (fuel : Nat)
+    (st : τ) (inp : Bytes) (room ai : Nat) (ao : Bytes) : Option (StepOut τ) :=
+  iter (wrapBody L b compress fl) fuel (st, inp, room, ai, ao)
 
 /-- `process_data` of a gzip/xz/bzip2 stream object; `none` = the loop never leaves -/
 def wrapProcess {τ : Type} (L : Lib τ) (b : Backend) (compress : Bool) (st : τ) (inp : Bytes) (room : Nat) (fl : Flush) :
@@ -321,28 +349,34 @@ structure ZState (τ : Type) where
   lib : τ
   pending : Bool
 
-/-- `zstd.c: process_data` loop, **with the patch** -/
-def zstdLoop {τ : Type} (L : ZLib τ) (compress : Bool) (fl : Flush) :
-    Nat → ZState τ → Bytes → Nat → Nat → Bytes → Option (ZState τ × Bytes × Nat × Nat × Bytes × Bool)
-  | 0, _, _, _, _, _ => none
-  | fuel + 1, st, inp, room, ai, ao =>
+/-- loop state of zstd's `process_data` -/
+abbrev ZWrapSt (τ : Type) := ZState τ × Bytes × Nat × Nat × Bytes
+
+/-- one round of the `zstd.c: process_data` loop, **with the patch**; result: final loop state and "error" -/
+def zstdBody {τ : Type} (L : ZLib τ) (compress : Bool) (fl : Flush) :
+    ZWrapSt τ → LoopStep (ZWrapSt τ) (ZWrapSt τ × Bool)
+  | (st, inp, room, ai, ao) =>
     if (decide (0 < inp.length) || (st.pending && decide (fl = Flush.full))) && decide (0 < room) then
       let r := L.call st.lib inp room fl
-      if r.isError then some (st, inp, room, ai, ao, true)
+      if r.isError then LoopStep.done ((st, inp, room, ai, ao), true)
       -- "no more input will follow, but the frame is incomplete"
       else if decide (inp.length = 0) && decide (r.consumed = 0) && decide (r.out.length = 0) then
-        some ({ st with lib := r.st }, inp, room, ai, ao, true)
+        LoopStep.done (({ st with lib := r.st }, inp, room, ai, ao), true)
       else
         let pending := decide (r.hint ≠ 0) || (compress && decide (fl ≠ Flush.full))
-        zstdLoop L compress fl fuel ⟨r.st, pending⟩ (inp.drop r.consumed) (room - r.out.length) (ai + r.consumed) (ao ++ r.out)
-    else some (st, inp, room, ai, ao, false)
+        LoopStep.next (⟨r.st, pending⟩, inp.drop r.consumed, room - r.out.length, ai + r.consumed, ao ++ r.out)
+    else LoopStep.done ((st, inp, room, ai, ao), false)
+
+def zstdLoop {τ : Type} (L : ZLib τ) (compress : Bool) (fl : Flush) (fuel : Nat)
+    (st : ZState τ) (inp : Bytes) (room ai : Nat) (ao : Bytes) : Option (ZWrapSt τ × Bool) :=
+  iter (zstdBody L compress fl) fuel (st, inp, room, ai, ao)
 
 def zstdProcess {τ : Type} (L : ZLib τ) (compress : Bool) (st : ZState τ) (inp : Bytes) (room : Nat) (fl : Flush) :
     Option (StepOut (ZState τ)) :=
   match zstdLoop L compress fl (inp.length + room + 2) st inp room 0 [] with
   | none => none
-  | some (st', _, _, ai, ao, true) => some ⟨st', ai, ao, Res.error⟩
-  | some (st', inp', room', ai, ao, false) =>
+  | some ((st', _, _, ai, ao), true) => some ⟨st', ai, ao, Res.error⟩
+  | some ((st', inp', room', ai, ao), false) =>
     if fl ≠ Flush.none ∧ inp'.length = 0 ∧ !st'.pending then some ⟨st', ai, ao, Res.streamEnd⟩
     else if 0 < inp'.length ∧ room' = 0 then some ⟨st', ai, ao, Res.bufferFull⟩
     else some ⟨st', ai, ao, Res.ok⟩
